@@ -145,6 +145,8 @@ Ltac destr_step H :=
   inversion H; subst; clear H.
 
 Ltac psimpl := cbn [pend seedl queue closed mainp th res failed dn bad owe stg new_thread set_phase set_thread ghost_step] in *.
+Ltac name_th := match goal with H1 : get (th ?s) ?a = Some ?t, H2 : hph ?t = _ |- _ => rename H1 into Ht; rename H2 into Hp end.
+Ltac name_main := match goal with H1 : mainp ?s = MHave _ |- _ => rename H1 into Hm end.
 Ltac cases x b := destruct (Nat.eq_dec x b) as [?Heq | ?Hne]; [subst x |].
 
 Ltac eqb_simp :=
@@ -618,5 +620,468 @@ Proof.
   - eapply Inv_EClose; eauto.
   - eapply Inv_EExit; eauto.
 Qed.
+
+(* ------------------------------------------------------------------------------------------------ *)
+(* How a step changes the handler table                                                             *)
+
+Definition phase_step (e : label) (a : nat) (p p' : hphase) : Prop :=
+  match e with
+  | EStart x => x = a /\ p = HFresh /\ exists sk, p' = HRun sk
+  | EEnd x _ => x = a /\ (exists sk, p = HRun sk) /\ (p' = HEnded \/ p' = HTrig (trig G a))
+  | EClose => a = root G /\ p = HFresh /\ (p' = HEnded \/ p' = HTrig (trig G a))
+  | ERel x => x = a /\ p = HEnded /\ p' = HTrig (trig G a)
+  | EDec x b => x = a /\ exists ts, p = HTrig (b :: ts) /\ (p' = HSend b ts \/ p' = HTrig ts)
+  | EEnq x b => x = a /\ exists ts, p = HSend b ts /\ p' = HTrig ts
+  | _ => False
+  end.
+
+Lemma held_no_thread : forall s g b, Inv s g -> mainp s = MHave b -> get (th s) b = None.
+Proof.
+  intros s g b I Hm. assert (Sb : stg g b = SHeld) by (apply (i_main _ _ I); assumption).
+  destruct (get (th s) b) eqn:E; auto. assert (get (th s) b <> None) by congruence. apply (i_th _ _ I) in H. congruence.
+Qed.
+
+Lemma th_step : forall s g free e s' f', Inv s g -> step s free e = Some (s', f') -> forall a,
+  get (th s') a = get (th s) a
+  \/ (get (th s) a = None /\ (e = ESpawn a \/ e = EInline a) /\ exists sem inl, get (th s') a = Some (mkth HFresh sem inl))
+  \/ (exists t p', get (th s) a = Some t /\ get (th s') a = Some (mkth p' (hsem t) (hinl t)) /\ phase_step e a (hph t) p').
+Proof.
+  intros s g free e s' f' I H a.
+  destruct e.
+  - destr_step H. left. reflexivity.
+  - destr_step H. left. reflexivity.
+  - destr_step H. bsplit. psimpl. cases a b; gsimp; [| left; reflexivity]. right. left.
+    split. eapply held_no_thread; eauto. split; eauto.
+  - destr_step H. bsplit. psimpl. cases a b; gsimp; [| left; reflexivity]. right. left.
+    split. eapply held_no_thread; eauto. split; eauto.
+  - destr_step H. psimpl. cases a a0; gsimp; [| left; reflexivity]. right. right.
+    eexists. eexists. split. eassumption. split. reflexivity. simpl. rewrite Heqh. eauto.
+  - destr_step H. psimpl. cases a a0; gsimp; [| left; reflexivity]. right. right.
+    eexists. eexists. split. eassumption. split. reflexivity. simpl. rewrite Heqh. split; auto. split; eauto.
+    destruct (after_end_cases t a0) as [[_ ->] | [_ ->]]; auto.
+  - destr_step H. psimpl. cases a a0; gsimp; [| left; reflexivity]. right. right.
+    eexists. eexists. split. eassumption. split. reflexivity. simpl. rewrite Heqh. auto.
+  - unfold C06.step in H.
+    destruct (get (th s) a0) as [t |] eqn:Ht; try discriminate.
+    destruct (hph t) as [| | | [| b' ts0] |] eqn:Hp; try discriminate.
+    destruct ((b' =? b) && negb (blocked top s a0)) eqn:Hc; try discriminate.
+    inversion H; subst; clear H. bsplit. psimpl. cases a a0; gsimp; [| left; reflexivity]. right. right.
+    eexists. eexists. split. eassumption. split. reflexivity. simpl. rewrite Hp. split; auto. eexists. split. reflexivity.
+    destruct (get (pend s) b =? 1); auto.
+  - destr_step H. bsplit. psimpl. cases a a0; gsimp; [| left; reflexivity]. right. right.
+    eexists. eexists. split. eassumption. split. reflexivity. simpl. rewrite Heqh. split; auto. eauto.
+  - destr_step H. psimpl. cases a (root G); gsimp; [| left; reflexivity]. right. right.
+    eexists. eexists. split. eassumption. split. reflexivity. simpl. rewrite Heqh. split; auto. split; auto.
+    destruct (after_end_cases t (root G)) as [[_ ->] | [_ ->]]; auto.
+  - destr_step H. left. reflexivity.
+Qed.
+
+(* ------------------------------------------------------------------------------------------------ *)
+(* Executions.  A level runs inside an environment (the other levels) that may change the number of  *)
+(* free tokens arbitrarily between its steps.                                                        *)
+
+Inductive lrun : list label -> lstate -> Prop :=
+| lrun_nil : lrun [] (init G)
+| lrun_snoc : forall tr s free e s' f', lrun tr s -> step s free e = Some (s', f') -> lrun (tr ++ [e]) s'.
+
+Lemma lrun_Inv : forall tr s, lrun tr s -> exists g, Inv s g.
+Proof.
+  induction 1. exists ghost0. apply Inv_init.
+  destruct IHlrun as [g I]. eexists. eapply Inv_step; eauto.
+Qed.
+
+Definition is_start (a : nat) (e : label) : bool := match e with EStart x => x =? a | _ => false end.
+Definition starts (a : nat) (tr : list label) : nat := length (filter (is_start a) tr).
+Definition started (s : lstate) (a : nat) : nat :=
+  match get (th s) a with Some t => match hph t with HFresh => 0 | _ => 1 end | None => 0 end.
+
+Lemma starts_snoc : forall a tr e, starts a (tr ++ [e]) = starts a tr + (if is_start a e then 1 else 0).
+Proof. intros. unfold starts. rewrite filter_app, app_length. simpl. destruct (is_start a e); reflexivity. Qed.
+
+Lemma started_step : forall s g free e s' f', Inv s g -> step s free e = Some (s', f') -> forall a, a <> root G ->
+  started s' a = started s a + (if is_start a e then 1 else 0).
+Proof.
+  intros s g free e s' f' I H a Hr. unfold started.
+  destruct (th_step _ _ _ _ _ _ I H a) as [E | [[E1 [E2 [sem [inl E3]]]] | [t [p' [E1 [E2 E3]]]]]].
+  - rewrite E. assert (is_start a e = false).
+    { destruct e; simpl; auto. destruct (Nat.eqb_spec a0 a); auto. subst. exfalso. destr_step H. psimpl. gsimp.
+      inversion E as [Et]. rewrite <- Et in Heqh. simpl in Heqh. discriminate Heqh. }
+    rewrite H0. lia.
+  - rewrite E1, E3. simpl. destruct E2 as [-> | ->]; reflexivity.
+  - rewrite E1, E2. simpl. destruct e; simpl in E3; try contradiction.
+    + destruct E3 as [-> [-> [sk ->]]]. simpl. rewrite Nat.eqb_refl. reflexivity.
+    + destruct E3 as [-> [[sk ->] [-> | ->]]]; reflexivity.
+    + destruct E3 as [-> [-> ->]]; reflexivity.
+    + destruct E3 as [-> [ts [-> [-> | ->]]]]; reflexivity.
+    + destruct E3 as [-> [ts [-> ->]]]; reflexivity.
+    + destruct E3 as [-> _]. congruence.
+Qed.
+
+Lemma starts_started : forall tr s, lrun tr s -> forall a, a <> root G -> starts a tr = started s a.
+Proof.
+  induction 1; intros.
+  - unfold starts, started, init. simpl. rewrite get_const. reflexivity.
+  - destruct (lrun_Inv _ _ H) as [g I]. rewrite starts_snoc. rewrite (started_step _ _ _ _ _ _ I H0) by assumption.
+    rewrite IHlrun by assumption. reflexivity.
+Qed.
+
+Lemma starts_root : forall tr s, lrun tr s -> starts (root G) tr = 0.
+Proof.
+  induction 1. reflexivity.
+  rewrite starts_snoc, IHlrun. destruct e; simpl; auto.
+  destruct (Nat.eqb_spec a (root G)); auto. subst. unfold C06.step in H0. rewrite Nat.eqb_refl in H0. discriminate.
+Qed.
+
+(* exec_once, first half: in every execution every action is started at most once *)
+Theorem exec_once_level : forall tr s, lrun tr s -> forall a, starts a tr <= 1.
+Proof.
+  intros. destruct (Nat.eq_dec a (root G)) as [-> | Hr].
+  - rewrite (starts_root _ _ H). lia.
+  - rewrite (starts_started _ _ H) by assumption. unfold started. destruct (get (th s) a); auto. destruct (hph t); auto.
+Qed.
+
+(* no action is ever handed to a second handler *)
+Theorem never_bad_level : forall tr s, lrun tr s -> bad s = false.
+Proof. intros. destruct (lrun_Inv _ _ H) as [g I]. apply (i_bad _ _ I). Qed.
+
+(* deps_first: when an action is started all its dependencies have ended *)
+Theorem deps_first_level : forall tr s free a s' f', lrun tr s -> step s free (EStart a) = Some (s', f') ->
+  forall d, In d (deps G a) -> get (dn s) d = true.
+Proof.
+  intros tr s free a s' f' Hr H d Hd. destruct (lrun_Inv _ _ Hr) as [g I]. destr_step H.
+  eapply (i_deps _ _ I a); eauto.
+  - eapply th_alln; eauto.
+  - erewrite th_stage; eauto. discriminate.
+Qed.
+
+(* once the queue has been closed every action has ended *)
+Lemma closed_all_dn : forall s g, Inv s g -> closed s = true -> forall a, In a (alln G) -> get (dn s) a = true.
+Proof.
+  intros s g I Hc.
+  assert (forall k a, In a (alln G) -> rank G a + k = length (nodes G) -> get (dn s) a = true).
+  { induction k using lt_wf_ind. intros a Ha Hk.
+    destruct (alln_cases G WF a Ha) as [-> | [Hn Hr]].
+    - rewrite <- (i_closed _ _ I). assumption.
+    - pose proof (wf_tne G WF a Hn) as Ht. destruct (trig G a) as [| b ts] eqn:E; try congruence.
+      assert (Hbt : In b (trig G a)) by (rewrite E; left; reflexivity).
+      assert (Hb : In b (alln G)) by (eapply (wf_tin G WF); eauto).
+      assert (Hab : In a (deps G b)) by (apply (trig_deps G WF a b Ha Hb); assumption).
+      pose proof (rank_deps G WF b Hb a Hab) as Hlt.
+      assert (Hle : rank G b <= length (nodes G)).
+      { unfold rank. destruct (b =? root G). lia. apply idx_le. }
+      assert (Hdb : get (dn s) b = true). { apply (H (length (nodes G) - rank G b)); auto; lia. }
+      apply (i_deps _ _ I b Hb); auto.
+      destruct (get (th s) b) eqn:Eb.
+      + erewrite th_stage; eauto. discriminate.
+      + rewrite (i_dn0 _ _ I b Eb) in Hdb. discriminate. }
+  intros a Ha. assert (Hle : rank G a <= length (nodes G)).
+  { unfold rank. destruct (a =? root G). lia. apply idx_le. }
+  apply (H (length (nodes G) - rank G a)); auto. lia.
+Qed.
+
+Lemma final_closed : forall tr s, lrun tr s -> final s = true -> closed s = true.
+Proof.
+  induction 1; intros Hf.
+  - discriminate.
+  - destruct e; destr_step H0; unfold final in *; psimpl; try discriminate; auto.
+    bsplit. assumption.
+Qed.
+
+(* exec_once, second half: in a maximal execution every action has been started exactly once *)
+Theorem exec_once_final_level : forall tr s, lrun tr s -> final s = true -> forall a, In a (nodes G) -> starts a tr = 1.
+Proof.
+  intros tr s Hr Hf a Ha. destruct (lrun_Inv _ _ Hr) as [g I].
+  assert (Hnr : a <> root G) by (intro; subst; apply (wf_root G WF); assumption).
+  rewrite (starts_started _ _ Hr) by assumption. unfold started.
+  pose proof (closed_all_dn _ _ I (final_closed _ _ Hr Hf) a (nodes_alln G a Ha)) as Hd.
+  destruct (get (th s) a) eqn:E.
+  - rewrite (i_dn _ _ I _ _ E) in Hd. destruct (hph t); simpl in *; auto; discriminate.
+  - rewrite (i_dn0 _ _ I _ E) in Hd. discriminate.
+Qed.
+
+(* ------------------------------------------------------------------------------------------------ *)
+(* Results: executions in which every exec returns the value of one fixed function of the action and  *)
+(* of its dependencies' results                                                                       *)
+
+Section Exec.
+Variable exec : nat -> (nat -> option R) -> option R.
+Hypothesis exec_local : forall a m m', (forall d, In d (deps G a) -> m d = m' d) -> exec a m = exec a m'.
+
+Lemma existsb_ext_in : forall A (f g : A -> bool) l, (forall x, In x l -> f x = g x) -> existsb f l = existsb g l.
+Proof.
+  induction l; simpl; intros. reflexivity. rewrite H by auto. rewrite IHl; auto.
+Qed.
+
+Lemma skipD_local : forall (m m' : nat -> option R) a, (forall d, In d (deps G a) -> m d = m' d) -> skipD G m a = skipD G m' a.
+Proof.
+  intros. unfold skipD. f_equal. apply existsb_ext_in. intros. rewrite H; auto.
+Qed.
+
+(* the defining equation of the result map at a *)
+Definition eqn_at (m : nat -> option R) (a : nat) : Prop := m a = if skipD G m a then None else exec a m.
+
+Lemma eqn_at_local : forall m m' a, m a = m' a -> (forall d, In d (deps G a) -> m d = m' d) -> eqn_at m a -> eqn_at m' a.
+Proof.
+  unfold eqn_at. intros. rewrite <- H. rewrite <- (skipD_local m m' a H0). rewrite <- (exec_local a m m' H0). assumption.
+Qed.
+
+Record InvF (s : lstate) : Prop := mkInvF {
+  f_fresh : forall a, match get (th s) a with None => True | Some t => hph t = HFresh end -> get (failed s) a = ifail G a;
+  f_run : forall a t sk, get (th s) a = Some t -> hph t = HRun sk -> sk = get (failed s) a /\ sk = skipD G (get (res s)) a;
+  f_dn : forall a, get (dn s) a = true -> a <> root G -> eqn_at (get (res s)) a /\ get (failed s) a = isNone (get (res s) a) }.
+
+Lemma InvF_init : InvF (init G).
+Proof.
+  constructor; unfold init; simpl; intros; rewrite ?get_const in *; auto; discriminate.
+Qed.
+
+(* a dependency of an action that has ended has ended itself *)
+Lemma dn_deps_dn : forall s g, Inv s g -> forall a, In a (alln G) -> get (dn s) a = true -> forall d, In d (deps G a) -> get (dn s) d = true.
+Proof.
+  intros s g I a Ha Hd d Hin. apply (i_deps _ _ I a Ha); auto.
+  destruct (get (th s) a) eqn:E.
+  - erewrite th_stage; eauto. discriminate.
+  - rewrite (i_dn0 _ _ I a E) in Hd. discriminate.
+Qed.
+
+Lemma dn_alln : forall s g, Inv s g -> forall a, get (dn s) a = true -> In a (alln G).
+Proof.
+  intros s g I a Hd. destruct (get (th s) a) eqn:E.
+  - eapply th_alln; eauto.
+  - rewrite (i_dn0 _ _ I a E) in Hd. discriminate.
+Qed.
+
+Lemma InvF_step : forall s g free e s' f', Inv s g -> InvF s -> step s free e = Some (s', f') -> consistent exec s e -> InvF s'.
+Proof.
+  intros s g free e s' f' I F H C.
+  destruct e.
+  - (* ESeed *) destr_step H. constructor; psimpl; intros; [apply (f_fresh _ F) | eapply (f_run _ F) | apply (f_dn _ F)]; eauto.
+  - (* EDeq *) destr_step H. constructor; psimpl; intros; [apply (f_fresh _ F) | eapply (f_run _ F) | apply (f_dn _ F)]; eauto.
+  - (* ESpawn *) destr_step H. bsplit. name_main. pose proof (held_no_thread _ _ _ I Hm) as Tb.
+    constructor; psimpl; intros.
+    + cases a b; gsimp. apply (f_fresh _ F). rewrite Tb. trivial. apply (f_fresh _ F). assumption.
+    + cases a b; gsimp. inversion H; subst. discriminate. eapply (f_run _ F); eauto.
+    + apply (f_dn _ F); auto.
+  - (* EInline *) destr_step H. bsplit. name_main. pose proof (held_no_thread _ _ _ I Hm) as Tb.
+    constructor; psimpl; intros.
+    + cases a b; gsimp. apply (f_fresh _ F). rewrite Tb. trivial. apply (f_fresh _ F). assumption.
+    + cases a b; gsimp. inversion H; subst. discriminate. eapply (f_run _ F); eauto.
+    + apply (f_dn _ F); auto.
+  - (* EStart *) destr_step H. name_th.
+    assert (Ha : In a (alln G)) by (eapply th_alln; eauto).
+    assert (Hfa : get (failed s) a = ifail G a). { apply (f_fresh _ F). rewrite Ht. assumption. }
+    assert (Hdd : forall d, In d (deps G a) -> get (dn s) d = true).
+    { intros. eapply (i_deps _ _ I a); eauto. erewrite th_stage; eauto. discriminate. }
+    assert (Hsk : get (failed s) a || existsb (get (failed s)) (deps G a) = skipD G (get (res s)) a).
+    { unfold skipD. rewrite Hfa. f_equal. apply existsb_ext_in. intros d Hd.
+      apply (f_dn _ F); auto. intro. subst. eapply (root_not_dep G WF); eauto. }
+    assert (Hda : get (dn s) a = false). { rewrite (i_dn _ _ I _ _ Ht), Hp. reflexivity. }
+    constructor; psimpl; intros.
+    + cases a0 a; gsimp. inversion H. apply (f_fresh _ F). assumption.
+    + cases a0 a; gsimp.
+      * inversion H; subst. simpl in H0. inversion H0; subst. split. reflexivity. assumption.
+      * eapply (f_run _ F); eauto.
+    + cases a0 a; gsimp. congruence. apply (f_dn _ F); auto.
+  - (* EEnd *) destr_step H. name_th.
+    match goal with H' : hph ?t = HRun ?x |- _ => rename x into sk0 end.
+    assert (Ha : In a (alln G)) by (eapply th_alln; eauto).
+    assert (Hnr : a <> root G). { intro. subst. pose proof (i_root _ _ I _ Ht) as Hx. rewrite Hp in Hx. assumption. }
+    destruct (f_run _ F _ _ _ Ht Hp) as [Hs1 Hs2].
+    assert (Hda : get (dn s) a = false). { rewrite (i_dn _ _ I _ _ Ht), Hp. reflexivity. }
+    assert (Hnd : forall x, In x (alln G) -> get (dn s) x = true -> ~ In a (deps G x)).
+    { intros x Hx Hdx Hin. pose proof (dn_deps_dn _ _ I x Hx Hdx a Hin). congruence. }
+    assert (Hself : ~ In a (deps G a)). { intro Hin. pose proof (rank_deps G WF a Ha a Hin). lia. }
+    assert (Hagree : forall x, ~ In a (deps G x) -> forall d, In d (deps G x) -> get (res s) d = get (set (res s) a o) d).
+    { intros x Hx d Hd. cases d a. contradiction. gsimp. reflexivity. }
+    constructor; psimpl; intros.
+    + cases a0 a; gsimp. { simpl in H. destruct (after_end_cases t a) as [[_ E] | [_ E]]; rewrite E in H; discriminate. }
+      apply (f_fresh _ F). assumption.
+    + cases a0 a; gsimp. inversion H; subst. destruct (after_end_cases t a) as [[_ E] | [_ E]]; rewrite E in H0; discriminate.
+      destruct (f_run _ F _ _ _ H H0). split; auto.
+      (* a running action other than a: a's result is not among its inputs unless a is a dependency, which has not ended *)
+      rewrite H2. apply skipD_local. intros d Hd. cases d a; gsimp; auto.
+      exfalso. assert (Hx : In a0 (alln G)) by (eapply th_alln; eauto).
+      assert (get (dn s) a = true). { eapply (i_deps _ _ I a0); eauto. erewrite th_stage; eauto. discriminate. }
+      congruence.
+    + cases a0 a; gsimp.
+      * unfold eqn_at. gsimp. rewrite <- (skipD_local _ _ a (Hagree a Hself)). rewrite <- Hs2.
+        destruct sk0.
+        -- destruct o; simpl in *; try discriminate. split; auto. rewrite <- Hs1. reflexivity.
+        -- rewrite <- (exec_local a _ _ (Hagree a Hself)). split.
+           ++ simpl in C. eapply C; eauto.
+           ++ rewrite <- Hs1. reflexivity.
+      * destruct (f_dn _ F a0 H H0) as [E1 E2]. assert (Hx : In a0 (alln G)) by (eapply dn_alln; eauto).
+        split; [| gsimp; assumption]. eapply eqn_at_local; [| | exact E1]. rewrite gso by congruence. reflexivity. apply Hagree. apply Hnd; auto.
+  - (* ERel *) destr_step H. constructor; psimpl; intros.
+    + cases a0 a; gsimp. inversion H. apply (f_fresh _ F). assumption.
+    + cases a0 a; gsimp. inversion H; subst. discriminate. eapply (f_run _ F); eauto.
+    + apply (f_dn _ F); auto.
+  - (* EDec *) unfold C06.step in H.
+    destruct (get (th s) a) as [t |] eqn:Ht; try discriminate.
+    destruct (hph t) as [| | | [| b' ts0] |] eqn:Hp; try discriminate.
+    destruct ((b' =? b) && negb (blocked top s a)) eqn:Hc; try discriminate.
+    inversion H; subst; clear H. constructor; psimpl; intros.
+    + cases a0 a; gsimp. inversion H. destruct (get (pend s) b =? 1); discriminate. apply (f_fresh _ F). assumption.
+    + cases a0 a; gsimp. inversion H; subst. simpl in H0. destruct (get (pend s) b =? 1); discriminate. eapply (f_run _ F); eauto.
+    + apply (f_dn _ F); auto.
+  - (* EEnq *) destr_step H. constructor; psimpl; intros.
+    + cases a0 a; gsimp. inversion H. apply (f_fresh _ F). assumption.
+    + cases a0 a; gsimp. inversion H; subst. discriminate. eapply (f_run _ F); eauto.
+    + apply (f_dn _ F); auto.
+  - (* EClose *) destr_step H. name_th. constructor; psimpl; intros.
+    + cases a (root G); gsimp. { simpl in H. destruct (after_end_cases t (root G)) as [[_ E] | [_ E]]; rewrite E in H; discriminate. }
+      apply (f_fresh _ F). assumption.
+    + cases a (root G); gsimp. { inversion H; subst. simpl in H0. destruct (after_end_cases t (root G)) as [[_ E] | [_ E]]; rewrite E in H0; discriminate. }
+      eapply (f_run _ F); eauto.
+    + cases a (root G); gsimp. congruence. apply (f_dn _ F); auto.
+  - (* EExit *) destr_step H. constructor; psimpl; intros; [apply (f_fresh _ F) | eapply (f_run _ F) | apply (f_dn _ F)]; eauto.
+Qed.
+
+(* consistent executions *)
+Inductive crun : list label -> lstate -> Prop :=
+| crun_nil : crun [] (init G)
+| crun_snoc : forall tr s free e s' f', crun tr s -> step s free e = Some (s', f') -> consistent exec s e -> crun (tr ++ [e]) s'.
+
+Lemma crun_lrun : forall tr s, crun tr s -> lrun tr s.
+Proof. induction 1; econstructor; eauto. Qed.
+
+Lemma crun_InvF : forall tr s, crun tr s -> InvF s.
+Proof.
+  induction 1. apply InvF_init.
+  destruct (lrun_Inv _ _ (crun_lrun _ _ H)) as [g I]. eapply InvF_step; eauto.
+Qed.
+
+(* the result map is a solution of the defining equations *)
+Definition sol (m : nat -> option R) : Prop := forall a, In a (nodes G) -> eqn_at m a.
+
+Lemma sol_unique : forall m m', sol m -> sol m' -> forall a, In a (nodes G) -> m a = m' a.
+Proof.
+  intros m m' S S'.
+  assert (forall n a, In a (nodes G) -> idx a (nodes G) < n -> m a = m' a).
+  { induction n; intros a Ha Hn. lia.
+    assert (Hd : forall d, In d (deps G a) -> m d = m' d).
+    { intros d Hd. apply IHn. eapply deps_in_nodes; eauto. right; assumption.
+      pose proof (wf_topo G WF a Ha d Hd). lia. }
+    rewrite (S a Ha), (S' a Ha). rewrite (skipD_local m m' a Hd). rewrite (exec_local a m m' Hd). reflexivity. }
+  intros a Ha. apply (H (Datatypes.S (idx a (nodes G)))); auto.
+Qed.
+
+Theorem final_sol : forall tr s, crun tr s -> final s = true ->
+  sol (get (res s)) /\ forall a, In a (nodes G) -> get (failed s) a = isNone (get (res s) a).
+Proof.
+  intros tr s Hc Hf. pose proof (crun_lrun _ _ Hc) as Hl. destruct (lrun_Inv _ _ Hl) as [g I].
+  pose proof (crun_InvF _ _ Hc) as F.
+  assert (Hd : forall a, In a (nodes G) -> get (dn s) a = true /\ a <> root G).
+  { intros a Ha. split. eapply closed_all_dn; eauto. eapply final_closed; eauto. right; assumption.
+    intro. subst. apply (wf_root G WF). assumption. }
+  split; intros a Ha; destruct (Hd a Ha); apply (f_dn _ F); auto.
+Qed.
+
+(* confluence: all maximal executions end with the same result and failed maps *)
+Theorem confluence_level : forall tr1 s1 tr2 s2, crun tr1 s1 -> final s1 = true -> crun tr2 s2 -> final s2 = true ->
+  forall a, In a (nodes G) -> get (res s1) a = get (res s2) a /\ get (failed s1) a = get (failed s2) a.
+Proof.
+  intros tr1 s1 tr2 s2 H1 F1 H2 F2 a Ha.
+  destruct (final_sol _ _ H1 F1) as [S1 E1]. destruct (final_sol _ _ H2 F2) as [S2 E2].
+  pose proof (sol_unique _ _ S1 S2 a Ha) as E. split. assumption. rewrite E1, E2 by assumption. rewrite E. reflexivity.
+Qed.
+
+(* ---- the denotation computed in dependency order is the solution ---- *)
+Lemma idx_app_in : forall x l r, In x l -> idx x (l ++ r) = idx x l.
+Proof.
+  induction l; simpl; intros. contradiction.
+  destruct (Nat.eqb_spec a x). reflexivity. rewrite IHl. reflexivity. destruct H; [congruence | assumption].
+Qed.
+
+Lemma idx_app_notin : forall x l r, ~ In x l -> idx x (l ++ x :: r) = length l.
+Proof.
+  induction l; simpl; intros. rewrite Nat.eqb_refl. reflexivity.
+  destruct (Nat.eqb_spec a x). subst. exfalso. apply H. left. reflexivity. rewrite IHl. reflexivity. tauto.
+Qed.
+
+Lemma evalD_snoc : forall l a m0, evalD G exec (l ++ [a]) m0 =
+  let m := evalD G exec l m0 in let v := if skipD G m a then None else exec a m in fun x => if x =? a then v else m x.
+Proof. intros. unfold evalD. rewrite fold_left_app. reflexivity. Qed.
+
+Lemma evalD_prefix : forall l l2, nodes G = l ++ l2 ->
+  (forall x, In x l -> eqn_at (evalD G exec l (fun _ => None)) x).
+Proof.
+  induction l using rev_ind; intros l2 E y Hy. contradiction.
+  rewrite <- app_assoc in E. simpl in E.
+  pose proof (wf_nodup G WF) as ND. rewrite E in ND.
+  assert (Hxl : ~ In x l). { apply NoDup_remove_2 in ND. intro. apply ND. apply in_or_app. left. assumption. }
+  assert (Hidx : idx x (nodes G) = length l). { rewrite E. apply idx_app_notin. assumption. }
+  assert (Hxn : In x (nodes G)). { rewrite E. apply in_or_app. right. left. reflexivity. }
+  set (m := evalD G exec l (fun _ => None)).
+  assert (Hag : forall z, In z (nodes G) -> idx z (nodes G) <= length l -> forall d, In d (deps G z) -> m d = evalD G exec (l ++ [x]) (fun _ => None) d).
+  { intros z Hz Hle d Hd. rewrite evalD_snoc. simpl. fold m. pose proof (wf_topo G WF z Hz d Hd).
+    destruct (Nat.eqb_spec d x); auto. subst. lia. }
+  apply in_app_or in Hy. destruct Hy as [Hy | [Hy | []]].
+  - assert (Hyn : In y (nodes G)). { rewrite E. apply in_or_app. left. assumption. }
+    assert (Hiy : idx y (nodes G) < length l). { rewrite E. rewrite idx_app_in by assumption. apply idx_In. assumption. }
+    eapply eqn_at_local; [| | apply (IHl (x :: l2) E y Hy)].
+    + rewrite evalD_snoc. simpl. destruct (Nat.eqb_spec y x); auto. subst. contradiction.
+    + apply Hag; auto. lia.
+  - subst y. unfold eqn_at.
+    rewrite <- (skipD_local m _ x (Hag x Hxn ltac:(lia))). rewrite <- (exec_local x m _ (Hag x Hxn ltac:(lia))).
+    rewrite evalD_snoc. simpl. rewrite Nat.eqb_refl. reflexivity.
+Qed.
+
+Theorem den_sol : sol (den G exec).
+Proof. intros a Ha. unfold den. eapply (evalD_prefix (nodes G) []); auto. rewrite app_nil_r. reflexivity. Qed.
+
+(* every maximal execution ends with the denotation *)
+Theorem final_den : forall tr s, crun tr s -> final s = true -> forall a, In a (nodes G) ->
+  get (res s) a = den G exec a /\ get (failed s) a = isNone (den G exec a).
+Proof.
+  intros tr s Hc Hf a Ha. destruct (final_sol _ _ Hc Hf) as [S E].
+  pose proof (sol_unique _ _ S den_sol a Ha) as Ed. split. assumption. rewrite E by assumption. rewrite Ed. reflexivity.
+Qed.
+
+(* failed_iff: an action is failed iff it or a transitive dependency raised an error *)
+Inductive dep_star : nat -> nat -> Prop :=
+| ds_refl : forall a, dep_star a a
+| ds_step : forall d x a, dep_star d x -> In x (deps G a) -> dep_star d a.
+
+Definition raised (m : nat -> option R) (a : nat) : Prop :=
+  ifail G a = true \/ (skipD G m a = false /\ exec a m = None).
+
+Lemma existsb_isNone : forall (m : nat -> option R) l, existsb (fun d => isNone (m d)) l = true <-> exists d, In d l /\ m d = None.
+Proof.
+  intros. rewrite existsb_exists. split; intros [d [H1 H2]]; exists d; split; auto.
+  destruct (m d); simpl in *; congruence. rewrite H2. reflexivity.
+Qed.
+
+Theorem failed_iff_sol : forall m, sol m -> forall a, In a (nodes G) ->
+  (m a = None <-> exists d, dep_star d a /\ In d (nodes G) /\ raised m d).
+Proof.
+  intros m S.
+  assert (forall n a, In a (nodes G) -> idx a (nodes G) < n -> (m a = None <-> exists d, dep_star d a /\ In d (nodes G) /\ raised m d)).
+  { induction n; intros a Ha Hn. lia.
+    assert (IH : forall x, In x (deps G a) -> (m x = None <-> exists d, dep_star d x /\ In d (nodes G) /\ raised m d)).
+    { intros x Hx. apply IHn. eapply deps_in_nodes; eauto. right; assumption. pose proof (wf_topo G WF a Ha x Hx). lia. }
+    split.
+    - intros Hm. rewrite (S a Ha) in Hm. destruct (skipD G m a) eqn:Es.
+      + unfold skipD in Es. apply orb_true_iff in Es. destruct Es as [Es | Es].
+        * exists a. split. constructor. split; auto. left. assumption.
+        * apply existsb_isNone in Es. destruct Es as [x [Hx Hmx]]. apply (IH x Hx) in Hmx.
+          destruct Hmx as [d [D1 [D2 D3]]]. exists d. split; auto. econstructor; eauto.
+      + exists a. split. constructor. split; auto. right. split; assumption.
+    - intros [d [D1 [D2 D3]]]. rewrite (S a Ha). inversion D1; subst.
+      + destruct D3 as [D3 | [D3 D4]]. unfold skipD. rewrite D3. reflexivity. rewrite D3. assumption.
+      + assert (m x = None). { apply (IH x H0). exists d. auto. }
+        assert (skipD G m a = true). { unfold skipD. apply orb_true_iff. right. apply existsb_isNone. eauto. }
+        rewrite H2. reflexivity. }
+  intros a Ha. apply (H (Datatypes.S (idx a (nodes G)))); auto.
+Qed.
+
+Theorem failed_iff_level : forall tr s, crun tr s -> final s = true -> forall a, In a (nodes G) ->
+  (get (failed s) a = true <-> exists d, dep_star d a /\ In d (nodes G) /\ raised (get (res s)) d).
+Proof.
+  intros tr s Hc Hf a Ha. destruct (final_sol _ _ Hc Hf) as [S E]. rewrite (E a Ha).
+  rewrite <- (failed_iff_sol _ S a Ha). destruct (get (res s) a); simpl; split; intros; congruence.
+Qed.
+
+End Exec.
 
 End LevelProofs.
